@@ -51,7 +51,7 @@ def run_one(e, repo):
         p = subprocess.run(["patch", "-p1", "-s", "--no-backup-if-mismatch", "-i", e["path"]], cwd=dst, capture_output=True, text=True)
         if p.returncode != 0:
             return dict(e, status="skipped", detail="patch does not apply to the current tree: " + (p.stdout + p.stderr).strip()[:200])
-        b = subprocess.run("go build -trimpath ./... && go test -trimpath -count=1 -run '^$' ./... >/dev/null", shell=True, cwd=dst, env=ENV, capture_output=True, text=True)
+        b = subprocess.run("go build -trimpath ./... && go test -trimpath -count=1 -exec /bin/true ./... >/dev/null", shell=True, cwd=dst, env=ENV, capture_output=True, text=True)
         if b.returncode != 0:
             return dict(e, status="nobuild", detail=(b.stdout + b.stderr).strip()[-400:])
         props = [e["property"]] + list(e.get("also", []))
